@@ -19,11 +19,15 @@ def add_rsakey_class(reg):
 def registry():
     reg = key_base_registry()
     add_rsakey_class(reg)
-    # C08: == holds exactly when both keys have the same privacy and the same component values; never raises
+    # C08: == holds exactly when both keys have the same privacy and the same component values; never raises.
+    # Reading of "components" for RSA (decided with the coordinator): (n, e) and, for a private key, d.  p and q are
+    # determined by (n, e, d) up to their order and u follows from them, so two valid keys that differ only in the order of
+    # the factors are the same key: RSA.construct((143,7,43,11,13)) == RSA.construct((143,7,43,13,11)) is True natively
+    # although p, q and the exported DER differ -- recorded here, not claimed as a defect.
     reg.add(Contract(KEY + '.__eq__', params={'other': OKEY}, raises={},
                      ensures={'semantic': 'result <==> (hasattr(self, "_d") == hasattr(other, "_d") and self._n._value == other._n._value '
-                                          'and self._e._value == other._e._value and (hasattr(self, "_d") ==> (self._d._value == other._d._value '
-                                          'and self._p._value == other._p._value and self._q._value == other._q._value and self._u._value == other._u._value)))',
+                                          'and self._e._value == other._e._value and '
+                                          '((hasattr(self, "_d") and hasattr(other, "_d")) ==> self._d._value == other._d._value))',
                               'bool': 'result is True or result is False'},
                      modifies=[]))
     return reg
